@@ -95,6 +95,8 @@ class Sched:
         self.switch_trace = []   # (point number, from, to, label) for replay files
         self.lone_wakeups = 0
         self.leaked = 0
+        self.stuck = False
+        self.wall_limit = 120.0
 
     # -- set-up -------------------------------------------------------
     def add_actor(self, name, body):
@@ -129,7 +131,11 @@ class Sched:
             first = self.actors[0]
             self.current = first
             first.sem.release()
-            self.done.wait()
+            if not self.done.wait(self.wall_limit):
+                # an actor is blocked on something the scheduler does not own (a real lock, real I/O)
+                self.stuck = True
+                self._do_abort("stuck")
+                self.done.wait(5.0)
             for a in self.actors:
                 a.thread.join(5.0)
                 if a.thread.is_alive():
